@@ -307,7 +307,7 @@ func init() {
 		ID:    "C16",
 		Title: "Validator-set checkpoints form a chain an EVM light client can always follow",
 		Funcs: fcNP("x/bridge/keeper.Keeper.CompareAndSetBridgeValidators", "x/bridge/keeper.Keeper.SetBridgeValidatorParams", "x/bridge/keeper.Keeper.CalculateValidatorSetCheckpoint",
-			"x/bridge/keeper.Keeper.LastSavedValidatorSetStale", "x/bridge/keeper.Keeper.GetValidatorSetTimestampBefore", "x/bridge/keeper.Keeper.GetCurrentValidatorsEVMCompatible",
+			"x/bridge/keeper.Keeper.LastSavedValidatorSetStale", "x/bridge/keeper.Keeper.GetValidatorSetTimestampBefore", "x/bridge/keeper.Keeper.GetCurrentValidatorsEVMCompatible", "x/bridge/keeper.Keeper.PowerDiff",
 			"x/bridge/keeper.Keeper.GetCurrentValidatorSetEVMCompatible", "x/bridge/keeper.Keeper.SetBridgeValsetSignature", "x/bridge/keeper.Keeper.PowerDiff"),
 		Assumptions: []string{
 			"trusted frames: EncodeAndHashValidatorSet (ABI packing and hashing, C15) and the staking keeper's GetAllValidators (assumed contract: reads only); codec MustMarshal is a pure read",
@@ -315,7 +315,7 @@ func init() {
 			"the byte-wise comparison of the saved and the current set (cdc.MustMarshal) is not modelled: the update rule is stated through the results of LastSavedValidatorSetStale and PowerDiff on the paths that call them",
 		},
 		NotDecided: []string{
-			"membership 'exactly the validators with a registered EVM address and non-zero power' is only proved as 'every member has non-zero power' (GetAllValidators and GetConsensusPower are unconstrained)",
+			"membership: decided that every member has non-zero power and carries the consensus power (tokens / 10^6) of a bonded validator with a registered EVM address; not decided: that its address is that validator's registered one (byte-content equality under an existential witness is beyond the solvers) and completeness (every such validator is a member); the 5 % measure PowerDiff is decided as 'the sum of the absolute per-address differences' in terms of its calls of absInt64, not as a closed formula over the two sets",
 			"total power below 2^63 at the call of SetBridgeValidatorParams (needed for threshold = total*2/3 without wrap-around) is a precondition that CompareAndSetBridgeValidators cannot establish from the unconstrained staking results",
 			"strictly increasing checkpoint timestamps (needs block-time monotonicity and at most one checkpoint per block) and the contract's acceptance rule (EVM side)",
 		},
@@ -344,15 +344,15 @@ func init() {
 		Funcs: fcNP("app.ProposalHandler.ProcessProposalHandler", "app.ProposalHandler.PreBlocker", "app.ProposalHandler.CheckInitialSignaturesFromLastCommit",
 			"app.ProposalHandler.CheckValsetSignaturesFromLastCommit", "app.ProposalHandler.CheckOracleAttestationsFromLastCommit", "app.ProposalHandler.SetEVMAddresses",
 			"x/bridge/keeper.Keeper.SetBridgeValsetSignature", "x/bridge/keeper.Keeper.SetOracleAttestation", "x/bridge/keeper.Keeper.SetEVMAddressByOperator", "x/bridge/keeper.Keeper.GetEVMAddressByOperator",
-			"app.VoteExtHandler.VerifyVoteExtensionHandler"),
+			"app.VoteExtHandler.VerifyVoteExtensionHandler", "x/bridge/keeper.Keeper.EVMAddressFromSignatures"),
 		Assumptions: []string{
 			"json.Unmarshal is deterministic: the lengths of the lists it decodes are functions of the input bytes (jsonlen); nothing else about decoded content is modelled. reflect.DeepEqual on two slices implies equal lengths (and equal integer/string elements)",
 			"PreBlocker is entered only for blocks whose proposal ProcessProposal accepted (its precondition is ProcessProposal's postcondition on the same req.Txs[0]); stored validator sets have non-nil members",
-			"trusted: EVMAddressFromSignatures (secp256k1 recovery), the staking keeper's GetValidatorByConsAddr (reads), baseapp.ValidateVoteExtensions (havocked result)",
+			"trusted: TryRecoverAddressWithBothIDs (secp256k1 recovery as an uninterpreted function of signature, hash and recovery id), the staking keeper's GetValidatorByConsAddr (reads), baseapp.ValidateVoteExtensions (havocked result)",
 		},
 		NotDecided: []string{
 			"that an honest proposer's proposal is always accepted, and that any single-element mutation of the injected data is rejected (element-wise equality through JSON round trips, nil versus empty lists) -- only the length alignment of the lists and 'every list was compared' are decided",
-			"that a validator's EVM address is registered once and from its own signatures: signature recovery is not modelled; only 'at most one registration per commit vote' and 'the setter writes exactly the given operator' are decided",
+			"that a validator's EVM address is registered only once over the life of the chain (decided: at most one registration per commit vote, the setter writes exactly the given operator, and EVMAddressFromSignatures returns an address that BOTH of the validator's two signatures over the two fixed messages recover to -- secp256k1 recovery itself, crypto.SigToPub in TryRecoverAddressWithBothIDs, is an uninterpreted function)",
 			"ctx.ConsensusParams().Abci is dereferenced without a nil check in ProcessProposal and PreBlocker, and ProcessProposal indexes req.Txs[0] without a length check (a panic there is recovered by baseapp and rejects the proposal): these panic obligations are not claimed",
 			"construction of a vote extension (ExtendVoteHandler: signing, keyring) is not under contract; VerifyVoteExtensionHandler is: a decodable extension is accepted only with signatures of at most 65 bytes and no more attestations than requested for the previous height, an undecodable one only from a validator without a registered EVM address, and the handler never returns an error",
 		},
